@@ -77,7 +77,7 @@ struct OpExec {                         // one executed operation on one node
 	std::vector<LogEv> logs;
 	Obs before, after;
 	// serialization
-	std::vector<uint8_t> saved_bytes, loaded_bytes; bool canary_ok = true; int snapshot_index = -1;
+	std::vector<uint8_t> saved_bytes, loaded_bytes; bool canary_ok = true, save_differs = false; int snapshot_index = -1;
 	bool saved_active = false; int saved_state = -1;           // LOAD: what the snapshot holds
 	bool budget_exceeded = false;
 	OpExec() { memset(payload, 0, sizeof(payload)); memset(mask, 0, sizeof(mask)); }
